@@ -28,8 +28,9 @@ type Result struct {
 	Exit     int // exit status, -1 if signalled
 	Signal   int // terminating signal, 0 if none
 	CPUms    int64
-	WallKill bool // the wall-clock watchdog fired (=> inconclusive, never a verdict)
-	Blocked  bool // killed because it consumed no CPU at all over several samples while unfinished: everything in it is blocked
+	MaxRSSKB int64 // peak resident set of the child (ru_maxrss)
+	WallKill bool  // the wall-clock watchdog fired (=> inconclusive, never a verdict)
+	Blocked  bool  // killed because it consumed no CPU at all over several samples while unfinished: everything in it is blocked
 	StartErr error
 }
 
@@ -142,6 +143,9 @@ type Opt struct {
 	NoFile int
 	// FileBlocks limits the size of any regular file the child writes (ulimit -f, 512-byte blocks), 0 = unlimited.
 	FileBlocks int
+	// DataKB limits the data segment of the child (ulimit -d: heap and private writable mappings, KiB), 0 = unlimited.
+	// It stands for a machine with that much memory to give: a child that needs more dies with a runtime fatal error.
+	DataKB int
 	// StdinPieces > 1 delivers Stdin in that many pieces with a pause between them (a producer that is slower
 	// than crd: reads return short).
 	StdinPieces int
@@ -174,6 +178,9 @@ func (r *Runner) Run(o Opt, args ...string) *Result {
 	}
 	if o.FileBlocks > 0 {
 		limits += fmt.Sprintf("; ulimit -f %d", o.FileBlocks)
+	}
+	if o.DataKB > 0 {
+		limits += fmt.Sprintf("; ulimit -d %d", o.DataKB)
 	}
 	shArgs := append([]string{"-c", fmt.Sprintf("%s; exec \"$0\" \"$@\" %s", limits, o.Redirect), bin}, args...)
 	cmd := exec.CommandContext(ctx, "/bin/sh", shArgs...)
@@ -216,6 +223,9 @@ func (r *Runner) Run(o Opt, args ...string) *Result {
 	res.Stderr = se.b.Bytes()
 	if cmd.ProcessState != nil {
 		res.CPUms = (cmd.ProcessState.UserTime() + cmd.ProcessState.SystemTime()).Milliseconds()
+		if ru, ok := cmd.ProcessState.SysUsage().(*syscall.Rusage); ok && ru != nil {
+			res.MaxRSSKB = ru.Maxrss
+		}
 		ws := cmd.ProcessState.Sys().(syscall.WaitStatus)
 		if ws.Signaled() {
 			res.Exit = -1
